@@ -622,7 +622,8 @@ func c13payloads(r *RNG, thorough bool) (out []struct {
 }
 
 func c13(c *Ctx) {
-	r := NewRNG(c.Seed)
+	// Fork: NewRNG(seed) streams of neighbouring seeds are shifted copies of each other
+	r := NewRNG(c.Seed).Fork()
 	hello := []byte("hello")
 
 	// ---- 1. directed corner cases of the combinators
